@@ -17,7 +17,7 @@ ID = "C08"
 LEVEL = "exploration"
 RULE = (
     "configurations = constraint kind per constraint (equality, lower-only, upper-only, two-sided, unbounded) for C "
-    "non-linear + L linear constraints x method (all 10 SciPy methods) x options in {None, {}, {'ftol':..}, list} x "
+    "non-linear + L linear constraints x method (all 10 SciPy methods, written plain / 'scipy/<method>' / in upper case) x options in {None, {}, {'ftol':..}, list} x "
     "max_iterations in {None, 7}; exhaustive over kinds for C,L<=2 (quick) / C,L<=3 (thorough, large combinations only for "
     "the constraint-capable methods); Hypothesis adds random coefficients, bounds with any finite/infinite mix, variable "
     "masks and fixed values. The arguments received by scipy.optimize.minimize / differential_evolution are captured and "
@@ -60,7 +60,7 @@ def build_config(case: dict[str, Any]) -> EnOptConfig:
         case = {**case, "options": "empty"}  # SciPy options of minimize() are not arguments of differential_evolution
     cfg: dict[str, Any] = {
         "variables": {"initial_values": case["x0"], "lower_bounds": case["lb"], "upper_bounds": case["ub"]},
-        "optimizer": {"method": case["method"], "options": OPTIONS[case["options"]]},
+        "optimizer": {"method": spell(case["method"], case.get("spelling")), "options": OPTIONS[case["options"]]},
     }
     if case["max_iterations"] is not None:
         cfg["optimizer"]["max_iterations"] = case["max_iterations"]
@@ -294,6 +294,14 @@ def run_case(case: dict[str, Any]) -> dict[str, Any]:  # noqa: C901, PLR0912, PL
     return info
 
 
+SPELLINGS = ("plain", "qualified", "upper", "qualified-mixed")
+
+
+def spell(method: str, style: str | None) -> str:
+    """The same SciPy method as a configuration may write it: plug-in qualified and/or in another case."""
+    return {"plain": method, "qualified": "scipy/" + method, "upper": method.upper(), "qualified-mixed": "SciPy/" + method.upper()}[style or "plain"]
+
+
 def base_case(n: int, method: str, options: str, max_iterations: int | None) -> dict[str, Any]:
     pts = [((7 * i + 3 * j) % 11 - 5) * 0.37 + 0.05 * j for i in range(12) for j in range(n)]
     return {"n": n, "method": method, "options": options, "max_iterations": max_iterations, "mask": None,
@@ -317,6 +325,7 @@ def exhaustive_shard(item: dict[str, Any]) -> Collector:
                     if count % item["parts"] != item["part"]:
                         continue
                     case = base_case(n, method, options, maxit)
+                    case["spelling"] = SPELLINGS[count % len(SPELLINGS)]
                     case["nl"] = [list(kind_bounds(k, 0.25 * (i + 1), 1.0 + i)) for i, k in enumerate(kinds[:c_n])]
                     case["lin"] = [list(kind_bounds(k, -0.5 + 0.3 * i, 2.0)) for i, k in enumerate(kinds[c_n:])]
                     case["a_nl"] = [((2 * i + 3 * j) % 5 - 2.0) or 1.0 for i in range(c_n) for j in range(n)]
@@ -364,6 +373,7 @@ def hypothesis_shard(item: dict[str, Any]) -> Collector:
         n = draw(st.integers(1, 4))
         method = draw(st.sampled_from(METHODS + ["slsqp", "cobyla", "differential_evolution", "slsqp"]))
         case = base_case(n, method, draw(st.sampled_from(list(OPTIONS))), draw(st.sampled_from([None, None, 7, 1])))
+        case["spelling"] = draw(st.sampled_from(SPELLINGS))
         mask = None
         if n > 1 and draw(st.booleans()):
             mask = draw(st.lists(st.booleans(), min_size=n, max_size=n))
